@@ -13,6 +13,7 @@ Props/C08 — Rock Ridge system use layout.
 import Pycdlib.Model.Susp
 import Pycdlib.Generated.Susp
 import Pycdlib.Proofs.Symlink
+import Pycdlib.Proofs.SlChain
 namespace Pycdlib.Susp
 
 theorem chunks_concat (fuel : Nat) (l : Bytes) (h : l.length < fuel) : (chunks250 fuel l).flatten = l := by
@@ -198,6 +199,14 @@ theorem sl_reassembles (hasCE : Bool) (a a' : Acc) (target : Bytes) (ht : target
     (h : newSymlink hasCE a target = some a') :
     ∃ dr ce, a'.dr = a.dr ++ dr ∧ a'.ce = a.ce ++ ce ∧ slTarget (allComps (dr ++ ce)) = target :=
   symlink_reassembles hasCE a a' target ht h
+
+/-- **C08 (symbolic links, record chain)**: of the SL entries emitted for one symbolic link, every one but the last
+carries the CONTINUE flag of RRIP 4.1.3 and the last does not — a reader that stops at the first entry without the
+flag reads all of them (with `sl_reassembles`: and so recovers the target). -/
+theorem sl_chain (hasCE : Bool) (a a' : Acc) (target : Bytes) (h : newSymlink hasCE a target = some a') :
+    ∃ dr ce pre cs, a'.dr = a.dr ++ dr ∧ a'.ce = a.ce ++ ce ∧ dr ++ ce = pre ++ [Ent.sl false cs] ∧
+      ∀ e ∈ pre, ∃ cs', e = Ent.sl true cs' :=
+  symlink_chain hasCE a a' target h
 
 /-- non-vacuity: a 300-byte component followed by `..` does not fit the directory record and is cut twice -/
 example : (newSymlink true { cur := 200 } (List.replicate 300 120 ++ [47, 46, 46])).isSome = true := by decide +kernel
